@@ -149,7 +149,12 @@ def table(draw):
         cols.append({'name': nm, 'kind': kind, 'cells': cells})
     fr = S.restrict_frame({'n': n, 'cols': cols})
     for c in fr['cols']:
-        c['decl'] = draw(st.sampled_from(S.DECLS[c['kind']]))
+        c['decl'] = draw(st.sampled_from(S.DECLS[c['kind']][:3]))
+    keyable = [c for c in fr['cols'] if c['kind'] == 'ostr' and len(set(
+        v for v in c['cells'] if v is not None)) == len(
+        [v for v in c['cells'] if v is not None])]
+    if keyable and draw(st.integers(0, 3)) == 0:
+        keyable[0]['decl'] = 'text PRIMARY KEY'
     return fr
 
 
@@ -343,9 +348,14 @@ def run(case, ctx):
             row = [None] * len(names)
             row[names.index(c['name'])] = val
             con = sqlite3.connect(path)
-            con.execute('INSERT INTO t VALUES (%s)'
-                        % ', '.join('?' for _ in names), row)
-            con.commit()
+            try:
+                con.execute('INSERT INTO t VALUES (%s)'
+                            % ', '.join('?' for _ in names), row)
+                con.commit()
+            except sqlite3.IntegrityError:
+                out.label('database-refuses-the-row')
+                con.close()
+                continue
             con.close()
             applied += 1
             out.label('perturb:' + kind)
